@@ -188,11 +188,18 @@ Print Assumptions C17_registry_code_is_named.
 
 (* ---- non-vacuity: the hypotheses are satisfied by concrete, non-trivial inputs *)
 Example C17_nonvacuous_pair :
-  In ("ENUM_SH_TYPE_BASE", tbl_ENUM_SH_TYPE_BASE) all_tables /\ In ("SHT_RELR", 19) tbl_ENUM_SH_TYPE_BASE /\
-  registry_lookup "SHT_RELR" = Some 19 /\
-  In ("DW_OP_name2opcode", tbl_DW_OP_name2opcode) all_tables /\ In ("DW_OP_addr", 3) tbl_DW_OP_name2opcode /\
-  registry_lookup "DW_OP_addr" = Some 3 /\ registry_lookup "R_ARM_IRELATIVE" = Some 160.
-Proof. vm_compute. intuition. Qed.
+  (In ("ENUM_SH_TYPE_BASE", tbl_ENUM_SH_TYPE_BASE) all_tables /\ In ("SHT_RELR", 19) tbl_ENUM_SH_TYPE_BASE /\
+   registry_lookup "SHT_RELR" = Some 19) /\
+  (In ("DW_OP_name2opcode", tbl_DW_OP_name2opcode) all_tables /\ In ("DW_OP_addr", 3) tbl_DW_OP_name2opcode /\
+   registry_lookup "DW_OP_addr" = Some 3) /\
+  (In ("ENUM_RELOC_TYPE_ARM", tbl_ENUM_RELOC_TYPE_ARM) all_tables /\
+   In ("R_ARM_IRELATIVE", 160) tbl_ENUM_RELOC_TYPE_ARM /\ registry_lookup "R_ARM_IRELATIVE" = Some 160).
+Proof.
+  repeat split;
+    first [ apply in_all_tables; vm_compute; reflexivity
+          | apply tfind_in; vm_compute; reflexivity
+          | vm_compute; reflexivity ].
+Qed.
 
 Example C17_nonvacuous_decode :
   enum_decode tbl_ENUM_SH_TYPE_BASE DefPass 19 = Name "SHT_RELR" /\
@@ -200,11 +207,11 @@ Example C17_nonvacuous_decode :
   enum_decode tbl_ENUM_EI_CLASS DefRaise 77 = MappingError /\
   enum_decode tbl_ENUM_DW_TAG DefPass 46 = Name "DW_TAG_subprogram" /\
   enum_encode tbl_ENUM_DW_FORM "DW_FORM_strp" = Some 14.
-Proof. vm_compute. repeat split. Qed.
+Proof. repeat split; vm_compute; reflexivity. Qed.
 
 (* the registry covers the bulk of the tables (guards against an empty registry making the
    agreement vacuous): at least 2000 of the pairs have a registry counterpart *)
 Example C17_coverage :
-  (2000 <=? fold_left (fun a t => a + covered (snd t)) all_tables 0) = true /\
-  (4000 <=? Z.of_nat (List.length registry)) = true.
-Proof. vm_compute. split; reflexivity. Qed.
+  Z.leb 2000 (fold_left (fun a t => a + covered (snd t)) all_tables 0) = true /\
+  Z.leb 4000 (Z.of_nat (List.length registry)) = true.
+Proof. split; vm_compute; reflexivity. Qed.
